@@ -27,18 +27,24 @@ type c02Cfg struct {
 	Threshold int64  `json:"threshold"`
 	Via       string `json:"via"` // direct | group
 	Key       string `json:"key"` // group key
+	Grp       int    `json:"grp"` // which group (index into "groups")
+	// every option is passed twice, first with another value: the later one must win
+	Dup bool `json:"dup"`
 	// options NOT passed to the constructor (the case then carries the default value of that setting)
 	Omit []string `json:"omit"`
 }
 
 // One case = one process-wide scenario on a virtual clock: shedders are built ("new") at chosen
-// moments, directly or through ONE ShedderGroup, load.Disable() may be called in between, and
-// Allow / Pass / Fail operations on the different shedders are interleaved.
+// moments, directly or through ShedderGroups, load.Disable() may be called at ANY position (before or
+// after NewShedderGroup - op "group" -, between two GetShedder calls, in the middle of the traffic), and
+// Allow / Pass / Fail operations on the different shedders are interleaved.  A group that no "group"
+// op names is built before the first operation.
 type c02Case struct {
 	ID       int      `json:"id"`
 	T0       int64    `json:"t0"`
 	Mode     string   `json:"mode"` // real (package's own checker) | split (checker replaced)
 	Group    *c02Cfg  `json:"group"`
+	Groups   []c02Cfg `json:"groups"`
 	Shedders []c02Cfg `json:"shedders"`
 	Ops      [][]any  `json:"ops"`
 }
@@ -108,6 +114,17 @@ func c02Opts(c c02Cfg) []ShedderOption {
 		omit[o] = true
 	}
 	var opts []ShedderOption
+	if c.Dup { // only the options that are passed again below
+		if !omit["buckets"] {
+			opts = append(opts, WithBuckets(c.Buckets+3))
+		}
+		if !omit["threshold"] {
+			opts = append(opts, WithCpuThreshold(c.Threshold/2+7))
+		}
+		if !omit["window"] {
+			opts = append(opts, WithWindow(time.Duration(c.Window)*2+time.Second))
+		}
+	}
 	// the order of the options is irrelevant to the constructor; vary it with the configuration
 	if !omit["threshold"] && c.Buckets%2 == 1 {
 		opts = append(opts, WithCpuThreshold(c.Threshold))
@@ -131,9 +148,21 @@ func c02Run(c c02Case, orig func(int64) bool) (out c02Out, stable bool) {
 	timex.SetFakeNow(time.Duration(c.T0))
 	enabled.Set(true)
 	defer enabled.Set(true) // white-box reset: the public API has no Enable()
-	var group *ShedderGroup
-	if c.Group != nil {
-		group = NewShedderGroup(c02Opts(*c.Group)...)
+	gcfgs := c.Groups
+	if len(gcfgs) == 0 && c.Group != nil {
+		gcfgs = []c02Cfg{*c.Group}
+	}
+	groups := make([]*ShedderGroup, len(gcfgs))
+	explicit := map[int]bool{}
+	for _, op := range c.Ops {
+		if k, _ := op[0].(string); k == "group" {
+			explicit[int(c02Int(op[1]))] = true
+		}
+	}
+	for g := range gcfgs {
+		if !explicit[g] {
+			groups[g] = NewShedderGroup(c02Opts(gcfgs[g])...)
+		}
 	}
 	shs := make([]Shedder, len(c.Shedders))
 	ass := make([]*adaptiveShedder, len(c.Shedders))
@@ -167,12 +196,25 @@ func c02Run(c c02Case, orig func(int64) bool) (out c02Out, stable bool) {
 		switch kind {
 		case "disable":
 			Disable()
+		case "group":
+			g := int(c02Int(op[1]))
+			groups[g] = NewShedderGroup(c02Opts(gcfgs[g])...)
+		case "get":
+			// GetShedder once more for a key that has its shedder: the same instance, whatever happened since
+			k := int(c02Int(op[1]))
+			cfg := c.Shedders[k]
+			o.Same = cfg.Via == "group" && groups[cfg.Grp] != nil && groups[cfg.Grp].GetShedder(cfg.Key) == shs[k]
 		case "new":
 			k := int(c02Int(op[1]))
 			timex.SetFakeNow(time.Duration(c02Int(op[2])))
 			cfg := c.Shedders[k]
 			o.Same = true
 			if cfg.Via == "group" {
+				group := groups[cfg.Grp]
+				if group == nil {
+					o.Bad = "group not built"
+					break
+				}
 				s1 := group.GetShedder(cfg.Key)
 				s2 := group.GetShedder(cfg.Key)
 				o.Same = s1 == s2
@@ -207,8 +249,11 @@ func c02Run(c c02Case, orig func(int64) bool) (out c02Out, stable bool) {
 				stat.VerifSetCpuUsage(cpu2)
 			}
 			p, err := shs[k].Allow()
-			if ass[k] != nil && stat.CpuUsage() != cpu2 {
-				stable = false
+			if ass[k] != nil {
+				// split mode: the gauge holds cpu2 once the checker has run, cpu1 if Allow never called it
+				if cur := stat.CpuUsage(); cur != cpu2 && !(c.Mode == "split" && cur == cpu1) {
+					stable = false
+				}
 			}
 			if err != nil {
 				o.Shed = err == ErrServiceOverloaded
